@@ -278,7 +278,9 @@ MIX_TREE = {"inc/list.h": _LIST_H, "src/m.cpp": "int m(int a) {\n  return a;\n}\
 # a directory that is ALSO reachable through a symbolic link (workspace / monorepo layouts), and a file symlink next to its target
 LINK_TREE = {"packages/shared/util.py": harness.py_function("shared_util", 5), "packages/shared/more.js": harness.js_function("more", 4),
              "workspace/shared": ("symlink", "../packages/shared"), "workspace/own.py": harness.py_function("own", 3),
-             "app/main.py": harness.py_function("main", 6), "app/alias.py": ("symlink", "main.py")}
+             "app/main.py": harness.py_function("main", 6), "app/alias.py": ("symlink", "main.py"),
+             # a .gitignore BELOW the root with a slash-less pattern that also names a file in a sibling folder
+             "app/.gitignore": "own.py\nutil.py\n"}
 WALK_TREES = {"main": WALK_TREE, "nfc": NFC_TREE, "mix": MIX_TREE, "links": LINK_TREE}
 
 
